@@ -23,6 +23,19 @@ def canonAddr (spelling : String) : String := spelling.toLower
     `RemoveAccount(role, spelling-of-account)`. -/
 def removalEffective (still : Bool) : Bool := !still
 
+/-- The property on its own terms, judged on the implementation only: `roles` = the admin roles the
+    signer holds according to the RAW key/value pairs of the x/admin store in the state the message
+    met, `oracle` / `clp` = whether the raw oracle admin entry / clp whitelist entry name the signer.
+    An accepted privileged message must have been signed by a holder of the role AS STORED. -/
+def storedOK (h : Handler) (roles : List Role) (oracle clp : Bool) (res : Outcome) : Bool :=
+  res == .err ||
+    match h.store with
+    | .none => true
+    | .admin => roles.contains h.role
+    | .oracle => oracle
+    | .clpWhitelist => clp
+    | .unknown => false
+
 /-- a refused message never changes state, authorised or not (keeper level, no wrapper) -/
 def errUnchanged (res : Outcome) (changed : Bool) : Bool := res == .ok || !changed
 
